@@ -19,6 +19,9 @@ type c06Cell struct {
 	Diff   string `json:"diff"`  // equal owned foreign status sysmeta
 	State  string `json:"state"` // alive deleting
 	GenSel bool   `json:"generateSelector"`
+	// cluster-scoped parent (its children live in a namespace of their own; every request for
+	// them has to name the child's namespace, not the parent's empty one)
+	Cluster bool `json:"clusterParent"`
 }
 
 func (c c06Cell) id() string {
@@ -29,7 +32,11 @@ func (c c06Cell) id() string {
 	if m == "<nil>" {
 		m = "nil"
 	}
-	return fmt.Sprintf("c06-%s-%s-%s-%s-%v", m, lower(c.Kind), c.Diff, c.State, c.GenSel)
+	id := fmt.Sprintf("c06-%s-%s-%s-%s-%v", m, lower(c.Kind), c.Diff, c.State, c.GenSel)
+	if c.Cluster {
+		id += "-cl"
+	}
+	return id
 }
 
 func TestVerif_C06_Table(t *testing.T) {
@@ -43,15 +50,22 @@ func TestVerif_C06_Table(t *testing.T) {
 				}
 				for _, state := range []string{"alive", "deleting"} {
 					for _, gs := range []bool{false, true} {
-						cell := c06Cell{Method: m, Kind: kind, Diff: diff, State: state, GenSel: gs}
-						if !sim.WantCase(cell.id()) {
-							continue
+						for _, cl := range []bool{false, true} {
+							if cl && methodRolling(m) {
+								// known finding KF1: a cluster-scoped parent with a rolling strategy fails every
+								// sync before any child is looked at (reported by C01/C08); nothing to judge here
+								continue
+							}
+							cell := c06Cell{Method: m, Kind: kind, Diff: diff, State: state, GenSel: gs, Cluster: cl}
+							if !sim.WantCase(cell.id()) {
+								continue
+							}
+							n++
+							t.Run(cell.id(), func(t *testing.T) {
+								t.Parallel()
+								runC06(t, cell)
+							})
 						}
-						n++
-						t.Run(cell.id(), func(t *testing.T) {
-							t.Parallel()
-							runC06(t, cell)
-						})
 					}
 				}
 			}
@@ -75,7 +89,7 @@ func runC06(t *testing.T, cell c06Cell) {
 	if cell.GenSel {
 		kinds = []kindCfg{{Kind: cell.Kind, Method: cell.Method}, otherKind}
 	}
-	sc := &scenario{ID: uid, GenerateSelector: cell.GenSel, Kinds: kinds}
+	sc := &scenario{ID: uid, GenerateSelector: cell.GenSel, Kinds: kinds, ClusterParent: cell.Cluster}
 	target := kidCfg{Kind: cell.Kind, Name: "target-" + uid, Value: "v1"}
 	if cell.Diff == "sysmeta" {
 		target.MetaExtra = map[string]interface{}{"uid": "bogus-uid", "resourceVersion": "1", "creationTimestamp": "1999-01-01T00:00:00Z", "generation": int64(77), "selfLink": "/x"}
